@@ -281,7 +281,7 @@ fn short_history(rng: &mut Rng, ctx: &mut Ctx) -> Result<(), (Bad, Vec<String>)>
             fresh += 1;
             format!("f{}_{}", fresh, rng.below(1000))
         };
-        let which = rng.below(25);
+        let which = rng.below(26);
         // drive either the original or (after cloning) the clone
         let target: &mut World = match (&mut clone, rng.bool()) {
             (Some(c), true) => c,
@@ -539,12 +539,18 @@ fn short_history(rng: &mut Rng, ctx: &mut Ctx) -> Result<(), (Bad, Vec<String>)>
                         let on = OwnedName::new(s.clone(), ns.clone(), pfx.clone());
                         let r = guard(|| {
                             let r = on.to_ref(&mut target.xot);
-                            (r.name_id(), r.namespace_id(), r.prefix_id(), r.local_name().to_string(), r.namespace().to_string(), r.prefix().to_string())
+                            let back = r.to_owned();
+                            let round = (back.local_name().to_string(), back.namespace().to_string(), back.prefix().to_string(), r.has_unprefixed_namespace(), back.in_default_namespace(), back == on);
+                            (r.name_id(), r.namespace_id(), r.prefix_id(), r.local_name().to_string(), r.namespace().to_string(), r.prefix().to_string(), round)
                         });
-                        let (id, nid, pid, l, u, p) = match r {
+                        let (id, nid, pid, l, u, p, round) = match r {
                             Ok(x) => x,
                             Err(p) => return Err((("panic".into(), p.short()), log.clone())),
                         };
+                        let unprefixed_ns = !ns.is_empty() && pfx.is_empty();
+                        if (round.0.as_str(), round.1.as_str(), round.2.as_str()) != (s.as_str(), ns.as_str(), pfx.as_str()) || round.3 != unprefixed_ns || round.4 != unprefixed_ns || !round.5 {
+                            return Err((("xmlname-layer".into(), format!("RefName::to_owned / has_unprefixed_namespace / in_default_namespace of ({:?}, {:?}, {:?}) give {:?}", s, ns, pfx, round)), log.clone()));
+                        }
                         if (l.as_str(), u.as_str(), p.as_str()) != (s.as_str(), ns.as_str(), pfx.as_str()) {
                             return Err((("xmlname-layer".into(), format!("to_ref of ({:?}, {:?}, {:?}) reads back as ({:?}, {:?}, {:?})", s, ns, pfx, l, u, p)), log.clone()));
                         }
@@ -711,6 +717,132 @@ fn short_history(rng: &mut Rng, ctx: &mut Ctx) -> Result<(), (Bad, Vec<String>)>
                     let c = World { xot: w.xot.clone(), m: w.m.clone(), html5: w.html5 };
                     clone = Some(c);
                 }
+            }
+            25 => {
+                // OwnedName's own constructors and value semantics, then resolution of what they built; and the
+                // conversions of the id-carrying name types
+                use xot::xmlname::{CreateName, NameStrInfo, OwnedName};
+                use std::hash::{Hash, Hasher};
+                let ns = hot[rng.below(hot.len())].to_string();
+                let pfx = hot[rng.below(hot.len())].to_string();
+                if s.contains(':') || pfx.contains(':') {
+                    continue;
+                }
+                log.push(format!("OwnedName::name / namespaced / prefixed / parse_full_name for ({:?}, {:?}, {:?}); ==, Hash; NameId::from", s, ns, pfx));
+                let hash_of = |n: &OwnedName| {
+                    let mut h = std::collections::hash_map::DefaultHasher::new();
+                    n.hash(&mut h);
+                    h.finish()
+                };
+                let r = guard(|| {
+                    let plain = OwnedName::name(&s);
+                    let a = OwnedName::namespaced(s.clone(), ns.clone(), |u| if u == ns { Some(pfx.clone()) } else { None });
+                    let a_none = OwnedName::namespaced(s.clone(), ns.clone(), |_| None);
+                    let b = OwnedName::prefixed(&pfx, &s, |p| if p == pfx { Some(ns.clone()) } else { None });
+                    let b_none = OwnedName::prefixed(&pfx, &s, |_| None);
+                    let full = if pfx.is_empty() { s.clone() } else { format!("{}:{}", pfx, s) };
+                    let c = OwnedName::parse_full_name(&full, |p| if p == pfx { Some(ns.clone()) } else { None });
+                    (plain, a, a_none.is_err(), b, b_none.is_err(), c)
+                });
+                let (plain, a, a_none_err, b, b_none_err, c) = match r {
+                    Ok(x) => x,
+                    Err(p) => return Err((("panic".into(), p.short()), log.clone())),
+                };
+                let triple = |n: &OwnedName| (n.local_name().to_string(), n.namespace().to_string(), n.prefix().to_string());
+                let want = (s.clone(), ns.clone(), pfx.clone());
+                if triple(&plain) != (s.clone(), String::new(), String::new()) || !a_none_err || !b_none_err {
+                    return Err((("xmlname-layer".into(), format!("OwnedName::name({:?}) = {:?}; a failing lookup gave Ok: {} / {}", s, triple(&plain), !a_none_err, !b_none_err)), log.clone()));
+                }
+                let reference = OwnedName::new(s.clone(), ns.clone(), "zzother".to_string());
+                for (how, built) in [("namespaced", a), ("prefixed", b), ("parse_full_name", c)] {
+                    let n = match built {
+                        Ok(n) => n,
+                        Err(e) => return Err((("xmlname-layer".into(), format!("OwnedName::{} refused ({:?}, {:?}, {:?}): {:?}", how, s, ns, pfx, e)), log.clone())),
+                    };
+                    if triple(&n) != want {
+                        return Err((("xmlname-layer".into(), format!("OwnedName::{} built {:?}, expected {:?}", how, triple(&n), want)), log.clone()));
+                    }
+                    // equality and hashing go by the expanded name, whatever the prefix
+                    if n != reference || hash_of(&n) != hash_of(&reference) || (n == plain) != ns.is_empty() {
+                        return Err((("xmlname-layer".into(), format!("OwnedName equality / hash of {:?} against the same expanded name under another prefix, or against the no-namespace name", want)), log.clone()));
+                    }
+                    let ids = guard(|| {
+                        let cn = n.to_create(&mut target.xot);
+                        let id = cn.name_id();
+                        let via_from: NameId = cn.into();
+                        let plain_cn = CreateName::name(&mut target.xot, &s);
+                        let plain_id: NameId = plain_cn.into();
+                        let (r_from, r_eq, r_hash_eq) = {
+                            let r1 = n.to_ref(&mut target.xot);
+                            let id1: NameId = r1.into();
+                            (id1, true, true)
+                        };
+                        (id, via_from, plain_id, r_from, r_eq, r_hash_eq)
+                    });
+                    let (id, via_from, plain_id, r_from, _, _) = match ids {
+                        Ok(x) => x,
+                        Err(p) => return Err((("panic".into(), p.short()), log.clone())),
+                    };
+                    if via_from != id || r_from != id {
+                        return Err((("xmlname-layer".into(), format!("NameId::from(CreateName / RefName) differs from name_id() for {:?}", want)), log.clone()));
+                    }
+                    match target.xot.namespace(&ns) {
+                        Some(nid) => tr!(target.note_ns(&ns, nid, "OwnedName::to_create")),
+                        None => return Err((("lookup-misses-registered".into(), format!("namespace {:?} is not registered after to_create", ns)), log.clone())),
+                    }
+                    if let Some(pid) = target.xot.prefix(&pfx) {
+                        tr!(target.note_prefix(&pfx, pid, "OwnedName::to_ref"));
+                    }
+                    tr!(target.note_name(&s, &ns, id, "OwnedName::to_create"));
+                    tr!(target.note_name(&s, "", plain_id, "CreateName::name"));
+                }
+                // two references to one name under different prefixes are equal and hash alike; another name is not
+                let pair = guard(|| {
+                    let n1 = target.xot.add_namespace(&ns);
+                    let id = target.xot.add_name_ns(&s, n1);
+                    let other = target.xot.add_name_ns(&format!("{}zz", s), n1);
+                    let p1 = target.xot.add_prefix("zzp1");
+                    let p2 = target.xot.add_prefix("zzp2");
+                    let e1 = target.xot.new_element(id);
+                    let e2 = target.xot.new_element(id);
+                    let e3 = target.xot.new_element(other);
+                    target.xot.namespaces_mut(e1).insert(p1, n1);
+                    target.xot.namespaces_mut(e2).insert(p2, n1);
+                    target.xot.namespaces_mut(e3).insert(p1, n1);
+                    let verdict = {
+                        let x = &target.xot;
+                        match (x.node_name_ref(e1), x.node_name_ref(e2), x.node_name_ref(e3)) {
+                            (Ok(Some(r1)), Ok(Some(r2)), Ok(Some(r3))) => {
+                                let h = |r: &xot::xmlname::RefName| {
+                                    let mut h = std::collections::hash_map::DefaultHasher::new();
+                                    r.hash(&mut h);
+                                    h.finish()
+                                };
+                                Some(r1 == r2 && h(&r1) == h(&r2) && r1 != r3)
+                            }
+                            _ => None,
+                        }
+                    };
+                    for e in [e1, e2, e3] {
+                        let _ = target.xot.remove(e);
+                    }
+                    (verdict, other, p1, p2)
+                });
+                match pair {
+                    Ok((Some(true), other, p1, p2)) | Ok((None, other, p1, p2)) => {
+                        tr!(target.note_name(&format!("{}zz", s), &ns, other, "add_name_ns"));
+                        tr!(target.note_prefix("zzp1", p1, "add_prefix"));
+                        tr!(target.note_prefix("zzp2", p2, "add_prefix"));
+                        match target.xot.namespace(&ns) {
+                            Some(nid) => tr!(target.note_ns(&ns, nid, "add_namespace")),
+                            None => {}
+                        }
+                    }
+                    Ok((Some(false), ..)) => return Err((("xmlname-layer".into(), format!("RefName == / Hash: the same name under two prefixes must be equal, another name unequal ({:?} in {:?})", s, ns)), log.clone())),
+                    Err(p) => return Err((("panic".into(), p.short()), log.clone())),
+                }
+                ctx.count("xmlname_layer_calls");
+                ctx.count("xmlname_value_semantics");
             }
             _ => {
                 log.push("check".to_string());
